@@ -9,6 +9,7 @@ from ..cfg import calls_at, node_exprs, subscripts_at
 from ..core import Checker
 from ..loader import AnalysisError, Func, norm, walk_expr, walk_own
 from ..prov import ELEM, call_name, expand1, get_arg, is_marker, scope_of
+from .generic_lints import run_all as _lints
 
 KEY_METHODS = ["__setitem__", "__getitem__", "__delitem__", "has_node", "delete_node", "longest_prefix"]
 
@@ -19,6 +20,7 @@ def _filter_T(t, lab, keyname="key") -> bool:
 
 
 def check(ck: Checker) -> None:
+    _lints(ck, "C17.aliasing", "index.index", "index.view", "fs")
     ck.decided = [
         "C17.viewguard: every DataIndexView method that takes a key reaches the wrapped index only across filter_fn(key) (root key exempt in __getitem__); every key a view generator yields has passed filter_fn",
         "C17.loadonce: DataIndex._load skips loaded entries, marks an entry loaded only after the storage load returned normally, and re-stores the marked entry",
@@ -191,6 +193,17 @@ def _accessors(ck: Checker) -> None:
                     oke = True
         ck.require(oke, "C17.accessors", el, n, "the entry to load is obtained through the index's own lookup (which loads an unloaded ancestor first)",
                    "_ensure_loaded reads the entry from the raw trie: below a still unloaded ancestor directory the entry is not found and listing it fails / is empty")
+    # `loaded` is None for a fresh entry and False for one read back from disk: both mean "not loaded yet"
+    cls_di = prog.cls("index.index", "DataIndex")
+    n_l = 0
+    for mname, mfn in cls_di.methods.items():
+        for x in walk_own(mfn.node):
+            if isinstance(x, ast.Attribute) and x.attr == "loaded" and isinstance(x.ctx, ast.Load):
+                n_l += 1
+            if isinstance(x, ast.Compare) and any(isinstance(s_, ast.Attribute) and s_.attr == "loaded" for s_ in [x.left] + list(x.comparators)):
+                ck.fail("C17.accessors", mfn, x, f"`{norm(x)}` distinguishes None from False in the loaded flag: a directory entry read back from a serialised index (loaded=False) is then never loaded by listings",
+                        construct=f"{norm(x)} / tri-state loaded")
+    ck.floor("C17.accessors", n_l, 2, "reads of the loaded flag in DataIndex")
     ls = prog.func("index.index", "DataIndex.ls")
     g = ck.cfg(ls)
     ens = {n.id for n in g.nodes.values() for c in calls_at(n) if is_method_call(c, "_ensure_loaded", "_load") and c.args and norm(c.args[0]) == "root_key"}
